@@ -65,21 +65,21 @@ def _variant_of_arg(body, op):
 
 
 def run(prog, chk):
-    loop_element(prog, chk)
-    for_element(prog, chk)
-    if_element(prog, chk)
-    condition_truth(prog, chk)
-    var_assigned_in_rendering_passes(prog, chk)
-    loop_var_value_exact(prog, chk)
-    for_items_verbatim(prog, chk)
-    visited_starts_empty(prog, chk)
-    conditions_evaluated_alike(prog, chk)
-    list_is_what_was_evaluated(prog, chk)
+    chk.rule(loop_element, prog, chk)
+    chk.rule(for_element, prog, chk)
+    chk.rule(if_element, prog, chk)
+    chk.rule(condition_truth, prog, chk)
+    chk.rule(var_assigned_in_rendering_passes, prog, chk)
+    chk.rule(loop_var_value_exact, prog, chk)
+    chk.rule(for_items_verbatim, prog, chk)
+    chk.rule(visited_starts_empty, prog, chk)
+    chk.rule(conditions_evaluated_alike, prog, chk)
+    chk.rule(list_is_what_was_evaluated, prog, chk)
     from props import C17
-    C17.limit_predicates(prog, chk)  # each loop is bounded on its own: the count compared with loop_limit is that loop's own counter
-    C17.limit_errors_keep_their_variant(prog, chk)  # a loop that exceeds its limit ends the transform with that error (nothing on the way turns it into a retryable one)
-    loop_variable_names_verbatim(prog, chk)
-    extent_accumulation(prog, chk)
+    chk.rule(C17.limit_predicates, prog, chk)  # each loop is bounded on its own: the count compared with loop_limit is that loop's own counter
+    chk.rule(C17.limit_errors_keep_their_variant, prog, chk)  # a loop that exceeds its limit ends the transform with that error (nothing on the way turns it into a retryable one)
+    chk.rule(loop_variable_names_verbatim, prog, chk)
+    chk.rule(extent_accumulation, prog, chk)
     from props import geomalg
     n = geomalg.check_sites(prog, chk, "C16")
     chk.floor("A17.site-algebra", n, 5, "loop parameter default case")
